@@ -385,7 +385,7 @@ def gen_jobs(ctx):
     for name, text, samples, junk, delim in RICH:
         alpha = sorted(set(gramgen.alphabet_of(text)) | set("".join(v for vs in samples.values() for v in vs)))
         alpha = [a for a in alpha if a.strip()] or ["a"]
-        reps = 7 if quick else 40
+        reps = 7 if quick else 24
         for k in range(reps):
             short = [s for s in gramgen.all_strings(alpha[:3] + [junk[0], " "], 2 if quick else 3)] if k == 0 else []
             jobs.append(("%s#%d" % (name, k), text,
@@ -410,7 +410,7 @@ def gen_jobs(ctx):
         jobs.append((name, text, {"inputs": base, "alphabet": "".join(alpha), "junk": "x", "delim": alpha[0],
                                   "nsent": 4 if quick else 12, "ncorrupt": 3, "combos": COMBOS[:3]},
                      rng.randrange(1 << 30)))
-    nrand = 220 if quick else 2500
+    nrand = 220 if quick else 1400
     for i in range(nrand):
         big = i % 3 == 0
         r = gramgen.random_grammar(rng, max_nt=4 if big else 3, max_alts=3, max_rhs=3,
